@@ -57,10 +57,15 @@ VARIANTS = {
     "t1_garbage_state": (1, "get_state", {}, [Ellipsis, GARBAGE], ["login1", "get_state1"], "RuntimeError"),
     "t2_garbage_state": (2, "get_breeze_state", {}, [Ellipsis, GARBAGE], ["login2", "get_state2"], "RuntimeError"),
     "t2_unsupported_mode": (2, "breeze_main", {"mode": "heat", "remote_key": "coolonly"}, None, ["login2", "get_state2"], "RuntimeError"),
+    # the device takes 45 (virtual) seconds to answer the login / the command: still one complete exchange
+    "t1_slow_login": (1, "control_on", {}, [("delay", 45, Ellipsis)], ["login1", "control"], "ok"),
+    "t1_slow_reply": (1, "control_off", {}, [Ellipsis, ("delay", 45, Ellipsis)], ["login1", "control"], "ok"),
+    "t2_slow_login": (2, "set_position", {}, [("delay", 45, Ellipsis)], ["login2", "set_position"], "ok"),
     # a separate-swing thermostat control with swing requested that is aborted after the state read
     "t2_special_aborted": (2, "breeze_swing", {"mode": "heat", "remote_key": "special-coolonly"}, None, ["login2", "get_state2"], "RuntimeError"),
 }
-ALPHA = {1: OPS1 + ["t1_bad_name", "t1_garbage_state"], 2: OPS2 + ["breeze_temp_only", "t2_garbage_state", "t2_unsupported_mode", "t2_special_aborted"]}
+ALPHA = {1: OPS1 + ["t1_bad_name", "t1_garbage_state", "t1_slow_login", "t1_slow_reply"],
+         2: OPS2 + ["breeze_temp_only", "t2_garbage_state", "t2_unsupported_mode", "t2_special_aborted", "t2_slow_login"]}
 import os
 
 _SEED = int(os.environ.get("VERIF_SEED", "0") or 0)
@@ -260,6 +265,10 @@ def run_interleaved(ch, spec, res, case):
                 conn.handled += 1
                 clk.shift(3.0)
                 reply = worlds[i].device.respond(conn, chunk)
+                if isinstance(reply, tuple) and reply and reply[0] == "delay":
+                    loop.advance(reply[1])
+                    clk.shift(float(reply[1]))
+                    reply = reply[2]
                 if reply is None:
                     conn.send_eof()
                 elif reply is not False:
